@@ -119,8 +119,8 @@ CLAIMED["C04"] = {
 }
 
 CLAIMED["C12"] = {
-    "text": "Lean theorems over a function-by-function port of the lexer and of Token's ColorDisplay, for EVERY source text (any length, tabs, CRLF, multi-byte and wide characters; display width an arbitrary function): every token the lexer emits and every error token it raises is a span pre++lex++post of the source whose offset/length are UTF-8 byte counts, whose line is the number of line feeds in pre and whose column is the bytes after the last one (invariant lifted through all 40 lexing functions by a Preserves combinator calculus); the tokens tile the source without gap or overlap; for a located token the printed line:column are its one-based coordinates, the echoed text is exactly its source line (CR of CRLF removed, tabs expanded), the carets start at the display width of the text before it and are as wide as the token is displayed, clipped to the first line for multi-line tokens; nothing is printed only at end of text (the `invalid line number` internal error is unreachable). Correspondence: ~41k (quick) / ~600k (thorough) enumerated, random and mutated sources lexed by model and implementation token for token; every compile error's printed context against the model; 19 kinds of injected errors at known places in files with tabs/CRLF/CJK/emoji/combining characters against an independent oracle, in root, imported, module, import-in-module and directory-module files with the real binary.",
-    "note": "Partial: parser and analyzer are not modelled - that their errors carry the offending token is decided by the injected-error oracle and by checking every reported token's coordinates against the text, not by a theorem. Display widths are the unicode-width crate's (read through jv). Colour output not covered. Trusted: Lean kernel; lexer/render models (tied token-for-token by the differential run); jv harness.",
+    "text": "Lean theorems over a function-by-function port of the lexer and of Token's ColorDisplay, for EVERY source text (any length, tabs, CRLF, multi-byte and wide characters; display width an arbitrary function): every token the lexer emits and every error token it raises is a span pre++lex++post of the source whose offset/length are UTF-8 byte counts, whose line is the number of line feeds in pre and whose column is the bytes after the last one (invariant lifted through all 40 lexing functions by a Preserves combinator calculus); the tokens tile the source without gap or overlap; for a located token the printed line:column are its one-based coordinates, the echoed text is exactly its source line (CR of CRLF removed, tabs expanded), the carets start at the display width of the text before it and are as wide as the token is displayed, clipped to the first line for multi-line tokens; nothing is printed only at end of text (the `invalid line number` internal error is unreachable). Correspondence: ~41k (quick) / ~600k (thorough) enumerated, random and mutated sources lexed by model and implementation token for token; every compile error's printed context against the model; 40 kinds of injected errors at known places in files with tabs/CRLF/CJK/emoji/combining characters against an independent oracle, in root, imported, module, import-in-module and directory-module files with the real binary.",
+    "note": "Partial: parser and analyzer are not modelled - that their errors carry the offending token is decided by the injected-error oracle (40 kinds) and by checking every reported token's coordinates against the text, not by a theorem. Display widths are the unicode-width crate's (read through jv). Colour output not covered. Trusted: Lean kernel; lexer/render models (tied token-for-token by the differential run); jv harness.",
     "technique": "Lean 4 proof (state invariant through a monadic combinator calculus; list lemmas for lines/scan) + token-level differential and injected-error oracle",
     "design": "4/C12",
 }
